@@ -95,9 +95,13 @@ func c17Core(a []int, inbound <-chan cemi.Message, events <-chan GroupEvent, pus
 			n++
 		}
 	}
+	var held [][]byte // the application keeps the payload of every event it was given
 	if group {
 		go consume(func() (int, bool) {
 			ev, ok := <-events
+			if ok {
+				held = append(held, ev.Data)
+			}
 			return int(ev.Destination), ok
 		})
 	} else {
@@ -142,6 +146,10 @@ func c17Core(a []int, inbound <-chan cemi.Message, events <-chan GroupEvent, pus
 		default:
 			verifAssert("C17.router.stalled.order", id == i+1)
 		}
+	}
+	for i, d := range held {
+		// payloads handed out earlier are not overwritten by later events
+		verifAssert("C17.group.payload_kept", len(d) == 1 && d[0] == byte(order[i]-1))
 	}
 	verifCover("C17.end")
 }
